@@ -172,3 +172,40 @@ Example C12_example_counts :
   notified (Bytes_Global.ios tr) = 5%nat /\ net_in_bytes (Bytes_Global.ios tr) = [1;13;10;3;4] /\
   net_out_bytes (Bytes_Global.ios tr) = [].
 Proof. exact Counts_Global.counts_example. Qed.
+
+(* ---- the shape of what a transfer call with a callback does (Brackets_Global.v) ---- *)
+From LibFtp Require Brackets_Global.
+
+(* every download / upload call with a callback, every state, either type, every server: the call's polls, callback
+   notifications, stream operations and data-connection reads / writes are accepted by the automaton
+   Before -begin-> Inside -end-> After, in which polls are allowed everywhere and everything else only Inside *)
+Theorem C12_callback_events_are_bracketed : forall a w, Brackets_Global.with_callback a ->
+  exists tr st', w_trace (snd (step w a)) = w_trace w ++ tr /\
+    Brackets_Global.chk Brackets_Global.Before (Bytes_Global.ios tr) = Some st'.
+Proof. exact Brackets_Global.step_callback_events_are_bracketed. Qed.
+Print Assumptions C12_callback_events_are_bracketed.
+
+(* read back: begin at most once; end at most once and only after a begin *)
+Theorem C12_begin_and_end_at_most_once : forall a w tr, Brackets_Global.with_callback a ->
+  w_trace (snd (step w a)) = w_trace w ++ tr ->
+  (count_ev is_begin (Bytes_Global.ios tr) <= 1)%nat /\
+  (count_ev is_end (Bytes_Global.ios tr) <= count_ev is_begin (Bytes_Global.ios tr))%nat.
+Proof. exact Brackets_Global.bracketed_once. Qed.
+Print Assumptions C12_begin_and_end_at_most_once.
+
+(* read back: without a begin (cancelled before the start, refused, failed earlier) nothing is moved, written or notified *)
+Theorem C12_no_begin_nothing_moved : forall a w tr, Brackets_Global.with_callback a ->
+  w_trace (snd (step w a)) = w_trace w ++ tr ->
+  count_ev is_begin (Bytes_Global.ios tr) = O -> count_ev Brackets_Global.is_data (Bytes_Global.ios tr) = O.
+Proof. exact Brackets_Global.no_begin_nothing_moved. Qed.
+Print Assumptions C12_no_begin_nothing_moved.
+
+Example C12_example_brackets :
+  let w0 := init_world (mkConfig Passive true TAscii false false) Brackets_Global.brackets_script in
+  let w1 := snd (steps w0 [AConnect [104] 21 None]) in
+  let tr := skipn (length (w_trace w1)) (w_trace (snd (step w1 (ADownload [102] (Some [false; false; true; true]) None)))) in
+  Bytes_Global.ios tr =
+    [IoPoll false; IoBegin; IoNetRead [1;13]; IoSinkWrite [1]; IoNotify 2; IoPoll false;
+     IoNetRead [10;3;13]; IoSinkWrite [10;3]; IoNotify 3; IoPoll true; IoSinkWrite [13]; IoSinkFlush; IoEnd; IoPoll true]
+  /\ Brackets_Global.chk Brackets_Global.Before (Bytes_Global.ios tr) = Some Brackets_Global.After.
+Proof. exact Brackets_Global.brackets_example. Qed.
